@@ -119,7 +119,9 @@ func decimalSizeBody(s Summary, t, size *Term) bool {
 		base, _ := constInt(sp.Args[n-1])
 		if sp.Args[n-2] == size && base == "10" {
 			// and a newline after it
-			nl := anySub(t, func(x *Term) bool { return x.Kind == "const" && (x.Name == "\"\\n\"" || x.Name == "10") && x != sp.Args[n-1] })
+			nl := anySub(t, func(x *Term) bool {
+				return x.Kind == "const" && (x.Name == "\"\\n\"" || x.Name == "10") && x != sp.Args[n-1]
+			})
 			if nl {
 				return true
 			}
@@ -559,7 +561,6 @@ func ruleServeHTTP(w *World, r *Run, ruleB, ruleC, ruleE string) {
 func tBytesType() types.Type { return types.NewSlice(types.Typ[types.Byte]) }
 func tErrorType() types.Type { return types.Universe.Lookup("error").Type() }
 
-
 // aliasOf: t shares its backing array with base (base itself or a reslice of it).
 func aliasOf(t, base *Term) bool {
 	for t != nil {
@@ -700,7 +701,6 @@ func ruleNoFalseSuccessAtEndpoint(w *World, r *Run, a *updAnalysis, rule string)
 		r.Undecided(rule, fnServeHTTP, "", "no failing outcome of Update reaches the endpoint analysis")
 	}
 }
-
 
 // requestPartsOK: the (old size, checkpoint, proof) handed to the witness are what was parsed from this request's body:
 // the old size is the result of an integer parse of a line read from it, the checkpoint is the unmodified remainder read
